@@ -87,16 +87,27 @@ class Picks(_Sys):
 
 
 class DigestCollector(collectors.Collector):
+    """Holds the digest record that batch_run returns; the record is written by the Finale system."""
+
     def collect(self):
-        m = self.model
-        if m.systems.timestep == m.cfg['steps'] - 1:
-            self.records.append({'seed': m.seed_used, 'cfg': m.cfg_key, 'digest': m.digest(), 'picks': m.n_calls})
+        pass
 
 
-class Stopper(core.System):
+class Finale(_Sys):
+    """Last step: marks the model complete and then runs a closing round on the finished model (reporting code samples and
+    shuffles the final population), still through the framework and hence still from the model's own generator."""
+
     def execute(self):
-        if self.model.systems.timestep == self.model.cfg['steps'] - 1:
-            self.model.complete()
+        m = self.model
+        if m.systems.timestep != m.cfg['steps'] - 1:
+            return
+        env = m.environment
+        m.complete()
+        m.trace.append('closing-order:' + ','.join(a.id for a in self.call(env.shuffle)))
+        a = self.call(env.get_random_agent, Energy)
+        m.trace.append(f'closing-pick:{a.id if a is not None else None}')
+        m.trace.append('closing-tagged:' + ','.join(x.id for x in self.call(env.shuffle, Energy, tag=1)))
+        m.systems['digest'].records.append({'seed': m.seed_used, 'cfg': m.cfg_key, 'digest': m.digest(), 'picks': m.n_calls})
 
 
 class TraceModel(core.Model):
@@ -131,7 +142,7 @@ class TraceModel(core.Model):
                                                           id='energy')
         self.systems.add_system(self.energy_collector)
         self.systems.add_system(DigestCollector('digest', self, priority=-30))
-        self.systems.add_system(Stopper('stopper', self, priority=-40))
+        self.systems.add_system(Finale('finale', self, priority=-40))
 
     def call(self, fn, *a, **kw):
         self.n_calls += 1
